@@ -21,12 +21,12 @@ Qed.
 
 (* one RRset: either nothing was published, or this was the commit: it was the last RRset of the
    message, no error, and the transfer is done *)
-Lemma step_pub : forall last s r s' o,
-  step last s r = (s', o) ->
+Lemma step_pub : forall (fl : flag) s r s' o,
+  step fl s r = (s', o) ->
   (pub s' = pub s /\ (done s' = true -> done s = true))
-  \/ (last = true /\ o = None /\ done s' = true /\ txn s' = None).
+  \/ (fl <> Mid /\ o = None /\ done s' = true /\ txn s' = None).
 Proof.
-  intros last s r s' o H. unfold step in H.
+  intros fl s r s' o H. unfold step in H.
   destruct (done s) eqn:Hd.
   { inversion H; subst. left; auto. }
   destruct (txn s) as [tz|] eqn:Ht.
@@ -39,10 +39,20 @@ Proof.
       destruct (expecting s); [inversion H; subst; left; cbn; rewrite Hd; auto|].
       match type of H with (if ?c then _ else _) = _ => destruct c end;
         [inversion H; subst; left; cbn; rewrite Hd; auto|].
-      destruct last; cbn [negb] in H; [|inversion H; subst; left; cbn; rewrite Hd; auto].
-      apply res_of_pub in H. destruct H as [[tz' [_ Hk]]|[-> [e ->]]].
-      * inversion Hk; subst. right. cbn. auto.
-      * left; cbn; rewrite Hd; auto.
+      assert (COMMIT : fl <> Mid ->
+        res_of (set_delmode s (if incremental s then negb (delmode s) else delmode s)) (t_add true tz r)
+          (fun tz' => (set_done (set_txn (set_pub (set_delmode s (if incremental s then negb (delmode s) else delmode s)) tz') None) true, None))
+        = (s', o) ->
+        (pub s' = pub s /\ (done s' = true -> false = true)) \/ (fl <> Mid /\ o = None /\ done s' = true /\ txn s' = None)).
+      { intros Hfl HH. apply res_of_pub in HH. destruct HH as [[tz' [_ Hk]]|[-> [e ->]]].
+        - inversion Hk; subst. right. cbn. auto.
+        - left; cbn; rewrite ?Hd; auto. }
+      destruct fl.
+      * inversion H; subst; left; cbn; rewrite Hd; auto.
+      * cbn [req_tsig set_delmode] in H. rewrite andb_false_r in H. apply COMMIT; [discriminate|exact H].
+      * cbn [req_tsig set_delmode] in H. rewrite andb_true_r in H. destruct (req_tsig s).
+        -- inversion H; subst; left; cbn; rewrite Hd; auto.
+        -- apply COMMIT; [discriminate|exact H].
     + destruct (soa_serial r) as [ss|]; [|inversion H; subst; left; cbn; rewrite Hd; auto].
       cbn [incremental set_expecting set_delmode serial] in H.
       destruct (incremental s).
@@ -71,17 +81,17 @@ Proof.
            ++ left; rewrite Hd; auto.
 Qed.
 
-Lemma loop_pub : forall rs s s' o,
-  loop s rs = (s', o) ->
+Lemma loop_pub : forall sg rs s s' o,
+  loopT sg s rs = (s', o) ->
   pub s' = pub s \/ (o = None /\ done s' = true /\ txn s' = None).
 Proof.
-  induction rs as [|r rest IH]; intros s s' o H; cbn [loop] in H.
+  intros sg. induction rs as [|r rest IH]; intros s s' o H; cbn [loopT] in H.
   - inversion H; subst. left; auto.
-  - destruct (step (match rest with [] => true | _ :: _ => false end) s r) as [s1 [e|]] eqn:Hs.
+  - destruct (step (match rest with [] => (if sg then Last else LastNoSig) | _ :: _ => Mid end) s r) as [s1 [e|]] eqn:Hs.
     + inversion H; subst. apply step_pub in Hs. destruct Hs as [[Hp Hd]|[_ [Hn _]]]; [left; auto|discriminate].
     + apply step_pub in Hs. destruct Hs as [[Hp Hd]|[Hl [_ [Hd Ht]]]].
       * apply IH in H. destruct H as [Hp'|H]; [left; congruence|right; auto].
-      * destruct rest; [|discriminate]. cbn in H. inversion H; subst. right; auto.
+      * destruct rest; [|congruence]. cbn in H. inversion H; subst. right; auto.
 Qed.
 
 (* the check made after the loop ("unexpected end of UDP IXFR") cannot fire after a commit *)
@@ -118,7 +128,7 @@ Proof.
   { inversion H; subst. left; auto. }
   destruct (soa s0) eqn:Hsoa.
   - eapply after_pub in H; [exact H|].
-    destruct (loop s0 (m_answer m)) as [s1 o1] eqn:Hl. apply loop_pub in Hl. exact Hl.
+    destruct (loopT (m_tsig m) s0 (m_answer m)) as [s1 o1] eqn:Hl. apply loop_pub in Hl. exact Hl.
   - destruct (m_answer m) as [|r0 rest]. { inversion H; subst. left; auto. }
     destruct (negb (s_name r0 =? origin)). { inversion H; subst. left; auto. }
     destruct (negb (s_type r0 =? tSOA)). { inversion H; subst. left; auto. }
@@ -128,14 +138,14 @@ Proof.
       cbn [serial is_udp set_soa] in H.
       destruct (ss =? serial s0).
       * eapply after_pub with (sa := s0) in H; [exact H|].
-        destruct (loop _ rest) as [s1 o1] eqn:Hl. apply loop_pub in Hl. exact Hl.
+        destruct (loopT _ _ rest) as [s1 o1] eqn:Hl. apply loop_pub in Hl. exact Hl.
       * destruct (serial_lt ss (serial s0)). { inversion H; subst. left; auto. }
         match type of H with (if ?c then _ else _) = _ => destruct c end.
         { inversion H; subst. left; auto. }
         eapply after_pub with (sa := s0) in H; [exact H|].
-        destruct (loop _ rest) as [s1 o1] eqn:Hl. apply loop_pub in Hl. exact Hl.
+        destruct (loopT _ _ rest) as [s1 o1] eqn:Hl. apply loop_pub in Hl. exact Hl.
     + eapply after_pub with (sa := s0) in H; [exact H|].
-      destruct (loop _ rest) as [s1 o1] eqn:Hl. apply loop_pub in Hl. exact Hl.
+      destruct (loopT _ _ rest) as [s1 o1] eqn:Hl. apply loop_pub in Hl. exact Hl.
 Qed.
 
 Definition zone_of_result (r : result) : zone :=
@@ -156,18 +166,22 @@ Proof.
       destruct Hp as [?|[_ [Hd' _]]]; [congruence|congruence].
 Qed.
 
-Theorem error_leaves_zone : forall z rdt ser udp ws e z' n,
-  inbound_xfr z rdt ser udp ws = (Error e z', n) -> z' = z.
+Theorem error_leaves_zone_t : forall req z rdt ser udp ws e z' n,
+  xfr_run req z rdt ser udp ws = (Error e z', n) -> z' = z.
 Proof.
-  intros z rdt ser udp ws e z' n H. unfold inbound_xfr in H.
-  destruct (init z rdt ser udp) as [s|e0] eqn:Hi.
+  intros req z rdt ser udp ws e z' n H. unfold xfr_run in H.
+  destruct (init_t req z rdt ser udp) as [s|e0] eqn:Hi.
   - apply drive_error_leaves_zone in H. subst z'.
-    unfold init in Hi.
+    unfold init_t in Hi.
     destruct (rdt =? tIXFR).
     + destruct ser; inversion Hi; reflexivity.
     + destruct (rdt =? tAXFR); [|discriminate]. destruct udp; inversion Hi; reflexivity.
   - inversion H; reflexivity.
 Qed.
+
+Theorem error_leaves_zone : forall z rdt ser udp ws e z' n,
+  inbound_xfr z rdt ser udp ws = (Error e z', n) -> z' = z.
+Proof. intros z rdt ser udp ws e z' n. apply error_leaves_zone_t. Qed.
 
 (* the same for the public API used without the driver: while no call has returned True the zone is
    untouched, whatever was fed *)
